@@ -899,6 +899,15 @@ class Interp:
         if key.startswith('<Self as ') and args:
             a0 = deref(args[0])
             if isinstance(a0, Agg): key = '<' + a0.name + key[5:]
+            else:
+                mt = re.match(r'^<Self as ([\w:]+)(?:<.*>)?>::(\w+)$', key)
+                if mt:
+                    trait, meth = mt.group(1).split('::')[-1], mt.group(2)
+                    want = 'Vec' if isinstance(a0, VecV) else ('[' if isinstance(a0, (SliceV, list)) else ('String' if isinstance(a0, StrV) else None))
+                    for c2 in [crate] + [c for c in self.crates if c != crate]:
+                        for (t, tr, me) in self.crates[c2].trait_impls:
+                            if tr == trait and me == meth and want and (t == want or (want == '[' and t.startswith('['))):
+                                key = '<' + t + key[5:]; break
         elif key[0] == '<' and args and GENERIC_RECV.match(key):
             a0 = deref(args[0])
             if isinstance(a0, Agg) and a0.vidx is None or isinstance(a0, Agg) and a0.name not in ('Option', 'Result', 'tuple'):
@@ -966,7 +975,7 @@ class Interp:
             if key.startswith('<' + c + '::'):
                 r = self._resolve_in(c, '<' + key[len(c) + 3:])
                 if r is not None: return r
-        if key.startswith(self.STD_PREFIX): return None
+        if key.startswith(self.STD_PREFIX) and not (key.startswith('<') and ' as ' in key): return None
         r = self._resolve_in(crate, key)
         if r is not None: return r
         # a type of another loaded crate used through a trimmed path
@@ -996,7 +1005,10 @@ class Interp:
                 typath = re.sub(r"^&(?:mut )?", '', strip_generics(ty).split('<')[0])
                 byp = [c for c in cands if (c[3].split('::<impl at')[0] + '::' + last_seg(ty)).endswith('::' + typath) or c[3].split('::<impl at')[0] + '::' + last_seg(ty) == typath]
                 if '::' in typath and byp: cands = byp
-            if len(cands) == 1: return self._pick(info, [cands[0][3]])
+            if len(cands) == 1:
+                # a single impl: it must still be the impl for these trait arguments (From<Buffer> is not From<&str>)
+                if targs and cands[0][0] and self._unify(cands[0][0], cands[0][1], targs) is None: return None
+                return self._pick(info, [cands[0][3]])
             if len(cands) > 1:
                 best = None
                 for cand in cands:
@@ -1012,7 +1024,8 @@ class Interp:
                     return self._pick(info, [cand[3]])
                 return None
             d = info.trait_defaults.get((trait, meth))
-            if d and (last_seg(ty), ) and self._type_known(info, last_seg(ty)): return self._pick(info, [d])
+            if d and (self._type_known(info, last_seg(ty)) or any(k[0] == last_seg(ty) and k[1] == trait for k in info.trait_impls)):
+                return self._pick(info, [d])
             if re.fullmatch(r'[A-Z]\w*', ty) and not self._type_known(info, ty) and trait in info.traits and not strict_type_only:
                 # a generic type parameter: the instantiation is not in the (polymorphic) MIR; decidable only
                 # when the crate has exactly one implementation of that trait method
